@@ -13,7 +13,7 @@ from ..escape import Escape
 from ..flow import ERROR
 from ..model import UNKNOWN, AnchorError, Class, Func, UnknownIdiom, dotted, short
 from .appflow import ASGI_CALL, WSGI_CALL, AppFlow
-from .c04 import bind_args, fold_in, inert_default, once_bound, plain_helper
+from .c04 import Deref, bind_args, fold_in, inert_default, inline_view, local_atom, once_bound, plain_helper, same_names, stable_locals, subst_locals
 from .c04_helpers import (Index, aliases, assume_none, attr_of, combine, def_value, effective_method, eval3, is_name,
                           none_test, param_at, pruned, refuted)
 from .common import dict_literal, enclosing_map, ancestors, implied, is_self_attr, mentions, nodes_within, single, strip_await, walk_self
@@ -145,7 +145,7 @@ def _local_events(p, f: Func, cfg, names: Set[str], send_name: str, calls: List[
         ne = named[name] = NamedEvent(name, 'local')
         binds, stores, args = _local_event_sites(f, name)
         for c in args:
-            if not is_name(c.func, send_name):
+            if not (isinstance(c.func, ast.Name) and c.func.id in same_names(f, send_name)):
                 raise UnknownIdiom('%s: event local %s is also passed to %s' % (f.qual, name, short(c.func)))
         if not binds:
             raise UnknownIdiom('%s: event passed to send is not a dict literal / module constant / local bound to a dict display: %s'
@@ -259,14 +259,58 @@ def _mutates(x, name) -> Optional[ast.AST]:
     return None
 
 
+def _helper_event(p, f: Func, call: ast.Call) -> Optional[Dict[object, ast.AST]]:
+    """`send(_make_event(a, b))`: the fields of the dict display the helper returns (its only return, directly or through a
+    local bound once to the display), with the helper's parameters replaced by the caller's arguments and the helper's own
+    constants folded - a fresh dict per call, exactly like an inline display."""
+    g = plain_helper(p, f, call)
+    bound = bind_args(g, call) if g is not None and not g.is_async else None
+    if bound is None:
+        return None
+    rets = [r for r in walk_self(g.node) if isinstance(r, ast.Return)]
+    if len(rets) != 1 or rets[0].value is None:
+        return None
+    v = rets[0].value
+    ob = once_bound(g)
+    if isinstance(v, ast.Name) and v.id in ob:
+        # the local must not be modified between the binding and the return
+        if any(_mutates(x, v.id) is not None for x in walk_self(g.node)):
+            return None
+        v = ob[v.id]
+    d = dict_literal(p, g, v) if isinstance(v, ast.Dict) else None
+    if d is None or not all(isinstance(k, str) for k in d):
+        return None
+    locals_g = {x.id for x in ast.walk(g.node) if isinstance(x, ast.Name) and isinstance(x.ctx, ast.Store)}
+
+    class Sub(ast.NodeTransformer):
+        def visit_Name(self, n):
+            if isinstance(n.ctx, ast.Load) and n.id in bound:
+                return ast.copy_location(copy.deepcopy(bound[n.id]), n)
+            return n
+
+    out: Dict[object, ast.AST] = {}
+    for k, e in d.items():
+        cv = p.fold(g.module, e, g.cls, g)
+        if cv is not UNKNOWN and isinstance(cv, (str, bytes, bool, int, type(None))):
+            out[k] = ast.copy_location(ast.Constant(value=cv), e)
+            continue
+        if any(isinstance(x, ast.Name) and x.id in locals_g and x.id not in bound for x in ast.walk(e)):
+            return None         # computed inside the helper: not an expression of the caller
+        if g.module is not f.module and any(isinstance(x, ast.Name) and x.id not in bound for x in ast.walk(e)):
+            return None
+        out[k] = ast.fix_missing_locations(Sub().visit(copy.deepcopy(e)))
+    return out
+
+
 def _send_events(p, f: Func, send_name: str, cfg=None, named_out: Optional[dict] = None) -> Dict[int, SendEvent]:
     """id(call) -> SendEvent for every `send(<event>)` call of f.  The event is a dict display, a module-level
     constant dict, or a local bound to a dict display in f (folded with its constant-key field stores)."""
     out = {}
     by_local: List[ast.Call] = []
     named: Dict[str, NamedEvent] = {}
+    send_names = same_names(f, send_name)       # emit = send: the same callable
     for c in walk_self(f.node):
-        if not (isinstance(c, ast.Call) and is_name(c.func, send_name)):
+        if not (isinstance(c, ast.Call) and isinstance(c.func, ast.Name) and c.func.id in send_names):
             continue
         if len(c.args) != 1 or c.keywords:
             raise UnknownIdiom('%s: send call %s' % (f.qual, short(c)))
@@ -280,6 +324,8 @@ def _send_events(p, f: Func, send_name: str, cfg=None, named_out: Optional[dict]
             m = p.modules.get(q.rpartition('.')[0], f.module)
             ff = None if m is not f.module else f
         d = dict_literal(p, f, a0)
+        if d is None and isinstance(a0, ast.Call):
+            d = _helper_event(p, f, a0)     # a module-level / same-class helper that builds the event from what it is handed
         if d is None:
             raise UnknownIdiom('%s: event passed to send is not a dict literal / module constant: %s' % (f.qual, short(a0)))
         if isinstance(a0, ast.Name):
@@ -367,11 +413,11 @@ def _member_codes(p, f: Func, e):
         return None
     op = e.ops[0]
     if isinstance(op, (ast.In, ast.NotIn)):
-        raw = p.fold(f.module, e.comparators[0], None, f)
+        raw = fold_in(p, f, e.comparators[0])
     elif isinstance(op, (ast.Eq, ast.NotEq)):
         raw = None
         for side in (e.comparators[0], e.left):
-            v = p.fold(f.module, side, None, f)
+            v = fold_in(p, f, side)
             if isinstance(v, (int, str)) and not isinstance(v, bool):
                 raw = (v,)
                 break
@@ -408,6 +454,8 @@ def _status_tests(p, f: Func, cfg) -> List[StatusTest]:
         if isinstance(t, ast.UnaryOp) and isinstance(t.op, ast.Not):
             t, label = t.operand, 'F'
         parts = t.values if label == 'T' and isinstance(t, ast.BoolOp) and isinstance(t.op, ast.Or) else [t]
+        sl = stable_locals(f)
+        parts = [sl[e.id] if isinstance(e, ast.Name) and e.id in sl and isinstance(sl[e.id], ast.Compare) else e for e in parts]
         got = [m for m in (_member_codes(p, f, e) for e in parts) if m is not None]
         if not got:
             continue
@@ -505,7 +553,7 @@ def _status_atom(p, f: Func, req: str, code: int, head: bool):
             return (code in m[0]) == m[2]
         pol = _head_test(e, req)
         return None if pol is None else (head == pol)
-    return atom
+    return local_atom(f, atom)
 
 
 def _head_test(e, req: str) -> Optional[bool]:
@@ -642,7 +690,8 @@ def r2_wsgi(run):
     run.use_cfg(cfg)
     ix = Index(cfg)
     sr = param_at(f, 2, 'start_response')
-    calls = [c for c in walk_self(f.node) if isinstance(c, ast.Call) and is_name(c.func, sr)]
+    srs = same_names(f, sr)         # begin = start_response: the same callable
+    calls = [c for c in walk_self(f.node) if isinstance(c, ast.Call) and isinstance(c.func, ast.Name) and c.func.id in srs]
     if not calls:
         raise AnchorError('%s: start_response is never called' % f.qual)
     call_nodes = {n for c in calls for n in ix.nodes_of(c)}
@@ -672,11 +721,27 @@ def r2_wsgi(run):
     if resp is None:
         raise AnchorError('%s: response object local not found' % f.qual)
 
+    dr = Deref(cfg, ix)
+
     def defs_satisfy(nid, name, pred) -> Optional[bool]:
+        """every definition of the local reaching nid satisfies pred (a local bound to another local / a bound method /
+        a function is read as what it was bound to)"""
         ds = ix.defs_reaching(nid, name)
         if not ds:
             return None
-        return all(pred(def_value(cfg, d, name)) for d in ds)
+        out = []
+        for d in ds:
+            dv = def_value(cfg, d, name)
+            if dv[0] == 'expr' and dv[1] is not None:
+                v = dr.norm(dv[1], d)
+                if isinstance(v, ast.Name) and v.id != name and ix.defs_reaching(d, v.id):
+                    out.append(bool(defs_satisfy(d, v.id, pred)))      # x = y: whatever y holds there
+                    continue
+                dv = ('expr', v)
+            elif dv[0] == 'unpack':
+                dv = ('unpack', dr.norm(dv[1], d), dv[2])
+            out.append(pred(dv))
+        return all(out)
 
     def is_status_call(dv):
         if dv[0] != 'expr' or not isinstance(dv[1], ast.Call):
@@ -761,17 +826,32 @@ def _precedence(run, f: Func, obj: str, region_stmts, tag: str):
         return False
 
     reads = {'text': [], 'data': [], 'media': []}
+    # `media = resp._media` (a plain attribute held in a local that is bound once): looking the attribute up consults
+    # nothing - the body source is consulted where the LOCAL is read
+    sl = stable_locals(f)
+    held: Dict[str, str] = {}
+    for nm, v in sl.items():
+        if isinstance(v, ast.Attribute) and is_name(v.value, obj) and v.attr.startswith('_'):
+            kind = 'data' if v.attr in DATA else 'media' if v.attr in MEDIA else None
+            if kind:
+                held[nm] = kind
     for n in cfg.live_nodes():
         if n.id not in region or n.kind in ('join', 'entry', 'exit', 'xexit'):
             continue
+        binding = n.ast if n.kind == 'stmt' and isinstance(n.ast, (ast.Assign, ast.AnnAssign)) else None
         for x in n.walk():
             if isinstance(x, ast.Attribute) and isinstance(x.ctx, ast.Load) and is_name(x.value, obj):
+                if binding is not None and binding.value is x and any(
+                        isinstance(t, ast.Name) and t.id in held for t in (binding.targets if isinstance(binding, ast.Assign) else [binding.target])):
+                    continue
                 if x.attr in TEXT:
                     reads['text'].append((n.id, x))
                 elif x.attr in DATA:
                     reads['data'].append((n.id, x))
                 elif x.attr in MEDIA:
                     reads['media'].append((n.id, x))
+            elif isinstance(x, ast.Name) and isinstance(x.ctx, ast.Load) and x.id in held and held[x.id] == 'media':
+                reads['media'].append((n.id, x))
     for k in reads:
         if not reads[k]:
             raise AnchorError('%s: no read of the %s source of %s' % (f.qual, k, obj))
@@ -903,13 +983,15 @@ def _content_type_default(run, q: str, tag: str):
         raise AnchorError('%s does not use self._headers' % q)
     h_al = aliases(f, lambda e: is_self_attr(e, '_headers'))
     is_h = lambda e: is_self_attr(e, '_headers') or (isinstance(e, ast.Name) and e.id in h_al)  # noqa: E731
+    is_ct = lambda e: fold_in(p, f, e) == 'content-type'  # noqa: E731  (the literal, a module constant, a local bound to either)
+    mts = {mt} | aliases(f, lambda e: is_name(e, mt))
     stores = [n.id for n in cfg.live_nodes() if n.kind == 'stmt' and isinstance(n.ast, ast.Assign)
-              and any(isinstance(t, ast.Subscript) and is_h(t.value) and isinstance(t.slice, ast.Constant) and t.slice.value == 'content-type'
-                      for t in n.ast.targets) and is_name(n.ast.value, mt)]
-    is_mt = lambda e: is_name(e, mt)  # noqa: E731
+              and any(isinstance(t, ast.Subscript) and is_h(t.value) and is_ct(t.slice)
+                      for t in n.ast.targets) and isinstance(n.ast.value, ast.Name) and n.ast.value.id in mts]
+    is_mt = lambda e: isinstance(e, ast.Name) and e.id in mts  # noqa: E731
 
     def missing(e):
-        if isinstance(e, ast.Compare) and len(e.ops) == 1 and isinstance(e.left, ast.Constant) and e.left.value == 'content-type' \
+        if isinstance(e, ast.Compare) and len(e.ops) == 1 and is_ct(e.left) \
                 and is_h(e.comparators[0]):
             if isinstance(e.ops[0], ast.NotIn):
                 return True
@@ -942,12 +1024,18 @@ def r4_bodiless_typeless(run):
     _status_sets(run, f, cfg, ix, sb, 'WSGI')
     _head_operand(run, f, btest, req, 'WSGI')
     sr = param_at(f, 2, 'start_response')
-    starts = [n for c in walk_self(f.node) if isinstance(c, ast.Call) and is_name(c.func, sr) for n in ix.nodes_of(c)]
+    starts = [n for c in walk_self(f.node) if isinstance(c, ast.Call) and isinstance(c.func, ast.Name) and c.func.id in same_names(f, sr) for n in ix.nodes_of(c)]
     for s in starts:
         run.check(flow.dominated_by_nodes(cfg, s, [btest.id]), 'WSGI: the HEAD-or-bodiless decision precedes start_response', f,
                   cfg.node(s).ast, where='%s:%s' % (f.file, cfg.node(s).lineno))
     rets = [n for n in cfg.live_nodes() if n.kind == 'stmt' and isinstance(n.ast, ast.Return) and isinstance(n.ast.value, ast.Name)]
-    bvars = {r.ast.value.id for r in rets}
+    wdr = Deref(cfg, ix)
+    bvars = set()
+    for r in rets:
+        v = wdr.norm(r.ast.value, r.id)      # result = body; return result
+        if not isinstance(v, ast.Name):
+            raise UnknownIdiom('%s: returns %s' % (f.qual, short(r.ast)))
+        bvars.add(v.id)
     bv = single(sorted(bvars), 'returned body local', f.qual)
 
     def blabels(n):
@@ -1087,7 +1175,7 @@ def _wsgi_locals(f: Func):
 
 
 def _head_operand(run, f: Func, btest, req: str, tag: str):
-    head = lambda e: _head_test(e, req)  # noqa: E731
+    head = local_atom(f, lambda e: _head_test(e, req))
     run.check(eval3(btest.ast, head) is (btest.label == 'T'), '%s: a HEAD request takes the bodiless branch whatever the status' % tag, f, btest.ast,
               runtime_witness='HEAD request: the response body is sent')
 
@@ -1096,15 +1184,19 @@ def _head_operand(run, f: Func, btest, req: str, tag: str):
 # R5 forced Content-Length
 # ---------------------------------------------------------------------------
 
-def _cl_stores(cfg, resp: str):
-    """node id -> value expression of `<resp>._headers['content-length'] = value`"""
+def _cl_stores(cfg, resp: str, p=None, f: Optional[Func] = None, dr: Optional[Deref] = None):
+    """node id -> value expression of `<resp>._headers['content-length'] = value` (the header dict through a local bound to
+    it, the key through a constant, the value with its locals read as what they were bound to)"""
     out = {}
     for n in cfg.live_nodes():
-        if n.kind == 'stmt' and isinstance(n.ast, ast.Assign):
-            for t in n.ast.targets:
-                if isinstance(t, ast.Subscript) and attr_of(t.value, resp, ('_headers',)) and isinstance(t.slice, ast.Constant) \
-                        and t.slice.value == 'content-length':
-                    out[n.id] = n.ast.value
+        if n.kind == 'stmt' and isinstance(n.ast, (ast.Assign, ast.AnnAssign)) and n.ast.value is not None:
+            for t in (n.ast.targets if isinstance(n.ast, ast.Assign) else [n.ast.target]):
+                if not isinstance(t, ast.Subscript):
+                    continue
+                base = dr.norm(t.value, n.id) if dr is not None else t.value
+                key = t.slice.value if isinstance(t.slice, ast.Constant) else (fold_in(p, f, t.slice) if p is not None else None)
+                if attr_of(base, resp, ('_headers',)) and key == 'content-length':
+                    out[n.id] = dr.norm(n.ast.value, n.id) if dr is not None else n.ast.value
     return out
 
 
@@ -1158,8 +1250,11 @@ def r5_content_length(run):
     rets = [n for n in gcfg.live_nodes() if n.kind == 'stmt' and isinstance(n.ast, ast.Return)]
     if not rets:
         raise AnchorError('%s: no return' % g.qual)
+    gdr = Deref(gcfg, gix)
     for r in rets:
         v = r.ast.value
+        if v is not None:
+            v = gdr.norm(v, r.id)        # `size = len(data); return [data], size` / `pair = ([data], len(data)); return pair`
         if not (isinstance(v, ast.Tuple) and len(v.elts) == 2):
             raise UnknownIdiom('%s: returns %s' % (g.qual, short(r.ast)))
         b, ln = v.elts
@@ -1209,12 +1304,12 @@ def r5_content_length(run):
             if name in defined_names(n):
                 run.check(okdef(def_value(cfg, n.id, name)), 'WSGI: the %s local only holds what _get_body returned (or the empty body)' % what, f,
                           n.ast if n.ast is not None else n.text(), where='%s:%s' % (f.file, n.lineno))
-    stores = _cl_stores(cfg, resp)
+    stores = _cl_stores(cfg, resp, p, f, Deref(cfg, ix))
     if not stores:
         raise AnchorError("%s: no store to %s._headers['content-length']" % (f.qual, resp))
     good = [s for s, v in stores.items() if isinstance(v, ast.Call) and is_name(v.func, 'str') and len(v.args) == 1 and is_name(v.args[0], lv)]
     sr = param_at(f, 2, 'start_response')
-    starts = [n for c in walk_self(f.node) if isinstance(c, ast.Call) and is_name(c.func, sr) for n in ix.nodes_of(c)]
+    starts = [n for c in walk_self(f.node) if isinstance(c, ast.Call) and isinstance(c.func, ast.Name) and c.func.id in same_names(f, sr) for n in ix.nodes_of(c)]
     is_len = lambda e: is_name(e, lv)  # noqa: E731
     _bodiless_no_length(run, f, cfg, wsb, req, stores, 'WSGI')
     for (_b, y, _l) in wsb.edges(btest, False):
@@ -1229,7 +1324,8 @@ def r5_content_length(run):
     cfg, f, ix = a.cfg, a.f, a.ix
     asb = StatusBranches(p, f, cfg, ix, a.resp, '_asgi_headers')
     btest = asb.btest
-    stores = _cl_stores(cfg, a.resp)
+    dr = Deref(cfg, ix)
+    stores = _cl_stores(cfg, a.resp, p, f, dr)
     if not stores:
         raise AnchorError("%s: no store to %s._headers['content-length']" % (f.qual, a.resp))
     _bodiless_no_length(run, f, cfg, asb, a.req, stores, 'ASGI')
@@ -1267,7 +1363,7 @@ def r5_content_length(run):
     live = flow.reachable(cfg, f_targets, avoid_nodes=sse_starts, edge_filter=with_body)
     sent = [(nid, ev) for nid, evs in a.ev_nodes.items() if nid in live for ev in evs if ev.kind == 'BODY']
     for nid, ev in sent:
-        ok = not ev.more and is_name(ev.body, rname)
+        ok = not ev.more and ev.body is not None and is_name(dr.norm(ev.body, nid), rname)
         run.check(ok, 'ASGI: the rendered body is sent as one final event carrying exactly the object whose len() was stored', f, ev.call.args[0],
                   where=f.loc(ev.call), runtime_witness='Content-Length differs from the number of body bytes')
     from .c04_helpers import defined_names
@@ -1681,11 +1777,14 @@ def r6_close(run):
     attrs = [t.attr for n in walk_self(init.node) if isinstance(n, ast.Assign) and is_name(n.value, sp)
              for t in n.targets if isinstance(t, ast.Attribute) and is_name(t.value, 'self')]
     sattr = single(sorted(set(attrs)), 'attribute holding the wrapped stream', init.qual)
+    close = inline_view(p, close)
     ccfg = cfg_of(close, p)
     run.use_cfg(ccfg)
     cix = Index(ccfg)
-    ccalls = [x for x in walk_self(close.node) if isinstance(x, ast.Call) and isinstance(x.func, ast.Attribute) and x.func.attr == 'close'
-              and is_self_attr(x.func.value, sattr)]
+    w_al = aliases(close, lambda e: is_self_attr(e, sattr))        # stream = self._stream: the wrapped stream
+    is_wrapped = lambda e: is_self_attr(e, sattr) or (isinstance(e, ast.Name) and e.id in w_al)  # noqa: E731
+    cidi = _CloseIdioms(close, is_wrapped)
+    ccalls = [x for x in walk_self(close.node) if cidi.is_close_call(x)]
     nodes = [n for x in ccalls for n in cix.nodes_of(x)]
     path = flow.find_path(ccfg, [ccfg.entry], [ccfg.exit], avoid_nodes=nodes, edge_filter=flow.no_exc)
     run.check(bool(nodes) and path is None, 'CloseableStreamIterator.close() closes the wrapped stream on every path', close,
@@ -1697,11 +1796,24 @@ def r6_close(run):
     # iterable whatever happens, so the wrapper must not close the stream on
     # its own anywhere else (in __next__ on error / at EOF, in __del__ ...):
     # that close plus the server's would be two
+    # a private method that only close() calls is a part of close() (it was read there, as its body)
+    part_of_close: Set[str] = set()
+    for x in walk_self(c.methods['close'].node):
+        if isinstance(x, ast.Call) and isinstance(x.func, ast.Attribute) and is_name(x.func.value, 'self') and x.func.attr in c.methods \
+                and x.func.attr.startswith('_') and not x.func.attr.startswith('__'):
+            nm = x.func.attr
+            inside = sum(1 for y in ast.walk(c.methods['close'].node) if isinstance(y, ast.Attribute) and y.attr == nm)
+            total = sum(1 for mod in p.modules.values() for y in ast.walk(mod.tree) if isinstance(y, ast.Attribute) and y.attr == nm)
+            if inside == total and not any(isinstance(y, ast.Constant) and y.value == nm for mod in p.modules.values() for y in ast.walk(mod.tree)):
+                part_of_close.add(nm)
     for mname, m in sorted(c.methods.items()):
-        if mname == 'close':
+        if mname == 'close' or mname in part_of_close:
             continue
-        own = [x for x in walk_self(m.node) if isinstance(x, ast.Call) and isinstance(x.func, ast.Attribute) and x.func.attr == 'close'
-               and (is_self_attr(x.func.value, sattr) or is_name(x.func.value, 'self'))]
+        m = inline_view(p, m)
+        m_al = aliases(m, lambda e: is_self_attr(e, sattr))
+        midi = _CloseIdioms(m, lambda e, m_al=m_al: is_self_attr(e, sattr) or (isinstance(e, ast.Name) and e.id in m_al))
+        own = [x for x in walk_self(m.node) if midi.is_close_call(x) or (
+            isinstance(x, ast.Call) and isinstance(x.func, ast.Attribute) and x.func.attr == 'close' and is_name(x.func.value, 'self'))]
         run.check(not own, 'CloseableStreamIterator.%s does not close the stream itself (the server calls close() exactly once)' % mname,
                   m, own[0] if own else ('no close in ' + mname), where=m.loc(own[0] if own else None),
                   runtime_witness='file-like resp.stream whose read() raises after streaming began, server without wsgi.file_wrapper: '
@@ -2560,6 +2672,7 @@ def _status_line(run):
         return False
 
     raw_al = aliases(f, lambda e: is_name(e, st)) | {st}
+    _line_dr = Deref(cfg, ix)
 
     def narrowed(facts) -> bool:
         """some fact that holds at the return is an isinstance() test of the parameter that came out true"""
@@ -2591,6 +2704,16 @@ def _status_line(run):
 
     for r in rets:
         v = r.ast.value
+        if isinstance(v, ast.Name) and v.id not in raw_al and v.id not in int_al:
+            # `line = '{} {}'.format(code, reason); return line`: the local is the expression it was bound to
+            ds = ix.defs_reaching(r.id, v.id)
+            if len(ds) == 1:
+                dv = def_value(cfg, ds[0], v.id)
+                if dv[0] == 'expr' and dv[1] is not None and all(
+                        ix.defs_reaching(r.id, x.id) == ix.defs_reaching(ds[0], x.id) for x in ast.walk(dv[1]) if isinstance(x, ast.Name)):
+                    v = dv[1]
+        if v is not None:
+            v = _line_dr.norm(v, r.id)       # attr = 'HTTP_' + str(code); getattr(status_codes, attr)
         facts = ix.facts(r.id)
         where = '%s:%s' % (f.file, r.lineno)
         what = 'code_to_http_status returns a "<3 digits> <reason>" shaped line'
@@ -2776,6 +2899,7 @@ def r10_sse_stream(run):
     Witness (a): resp.sse = finite async generator, client keeps the connection open: no event with more_body false.
     Witness (b): resp.sse = an async generator FUNCTION: http.response.start is sent, then `async for` raises TypeError."""
     a = AsgiCall(run)
+    p = run.project
     f, cfg, ix = a.f, a.cfg, a.ix
     receive = param_at(f, 2, 'receive')
     sse_al = aliases(f, lambda e: attr_of(e, a.resp, ('_sse', 'sse')))
@@ -2794,8 +2918,30 @@ def r10_sse_stream(run):
                          if flow.find_path(cfg, [nid], heads, edge_filter=flow.no_exc) is not None})
         if not starts:
             raise UnknownIdiom('%s: no response-start event precedes the loop over the SSE emitter' % f.qual)
+        # the check extracted into a module-level / same-class helper that is handed the emitter: the helper call validates
+        # when, inside the helper, a test inspecting its parameter rejects one outcome with a raise on every path
+        validating = []
+        for c in walk_self(f.node):
+            if isinstance(c, ast.Call) and (any(is_sse(x) for x in c.args) or any(is_sse(k.value) for k in c.keywords)):
+                g = plain_helper(p, f, c)
+                bound = bind_args(g, c) if g is not None and not g.is_async else None
+                if bound is None:
+                    continue
+                prms = {k for k, v in bound.items() if is_sse(v)}
+                gcfg = cfg_of(g, p)
+                for t in gcfg.live_nodes():
+                    if t.kind != 'test' or not any(isinstance(cc, ast.Call) and any(isinstance(x, ast.Name) and x.id in prms for x in cc.args)
+                                                   for cc in walk_self(t.ast)):
+                        continue
+                    for (y, l) in gcfg.succ[t.id]:
+                        if l not in ('T', 'F'):
+                            continue
+                        region = flow.reachable(gcfg, [y], edge_filter=flow.no_exc)
+                        raises = any(gcfg.node(i).kind == 'stmt' and isinstance(gcfg.node(i).ast, ast.Raise) for i in region)
+                        if raises and gcfg.exit not in region:
+                            validating.extend(ix.nodes_of(c))
         for s in starts:
-            ok = False
+            ok = bool(validating) and flow.dominated_by_nodes(cfg, s, validating)
             inspected = None
             for t in cfg.live_nodes():
                 if t.kind != 'test' or not any(isinstance(c, ast.Call) and any(is_sse(x) for x in c.args) for c in walk_self(t.ast)):
@@ -2910,7 +3056,9 @@ def r11_media_render(run):
             if not (isinstance(st, ast.Assign) and len(st.targets) == 1 and isinstance(st.targets[0], ast.Tuple)):
                 continue
             v = strip_await(st.value)
-            if not (isinstance(v, ast.Call) and isinstance(v.func, ast.Attribute) and v.func.attr == '_resolve'):
+            res_al = aliases(f, lambda e: isinstance(e, ast.Attribute) and e.attr == '_resolve')       # resolve = handlers._resolve
+            if not (isinstance(v, ast.Call) and ((isinstance(v.func, ast.Attribute) and v.func.attr == '_resolve')
+                                                 or (isinstance(v.func, ast.Name) and v.func.id in res_al))):
                 continue
             for i, t in enumerate(st.targets[0].elts):
                 if i not in opt or not isinstance(t, ast.Name):
@@ -2995,6 +3143,13 @@ class _NativeValues:
                 return None
             if isinstance(e.func, ast.Attribute) and e.func.attr in _STR_METHODS:
                 return None         # a str method: returns a str or raises for anything else
+            if isinstance(e.func, ast.Attribute) and e.func.attr in ('get', 'pop') and self.is_store(e.func.value) and e.args and not e.keywords:
+                # a value that is in the store already, or the default that is handed in
+                for d in e.args[1:]:
+                    r = self.raw(d, nid, depth)
+                    if r:
+                        return r
+                return None
             g = plain_helper(p, f, e) if self.level < 2 else None
             bound = bind_args(g, e) if g is not None and not g.is_async else None
             if bound is not None:
@@ -3245,7 +3400,8 @@ def r13_sse_ctor(run):
     what = 'SSEvent.__init__ rejects no argument that is None or an instance of its documented type (an event built in mid-stream must not raise)'
     explained: Set[str] = set()
     for n, extra in sites:
-        facts = ix.facts(n.id) + extra
+        # `ok = retry is None or isinstance(retry, int)` ... `if not ok: raise`: the local is the test it was bound to
+        facts = [(subst_locals(f, t), tr) for (t, tr) in ix.facts(n.id) + extra]
         names = sorted({x.id for (t, _tr) in facts for x in ast.walk(t) if isinstance(x, ast.Name) and x.id in types})
         if len(names) > 6:
             raise UnknownIdiom('%s: %s depends on %d arguments' % (f.qual, short(n.ast, 60), len(names)))
@@ -3253,7 +3409,7 @@ def r13_sse_ctor(run):
         for bits in range(1 << len(names)):
             cell = {nm: bool(bits >> i & 1) for i, nm in enumerate(names)}
             open_value, open_other = [], []
-            atom = atom_for(cell, open_value, open_other)
+            atom = local_atom(f, atom_for(cell, open_value, open_other))
             vals = [(t, tr, eval3(t, atom)) for (t, tr) in facts]
             if any(v is not None and v != tr for (_t, tr, v) in vals):
                 continue            # refuted for this cell: the raise is not reached
